@@ -28,7 +28,7 @@ static int thorough;
 
 typedef struct { const char *name; int kind; wcfg_t cfg; int resumed; int expect_complete; } scen_t;
 enum { K_LOADKEYS_RSA = 0, K_LOADKEYS_EC, K_SESSION, K_LOADKEYS_PEMCAS, K_PARSE_OBJECTS };
-static scen_t scens[24];
+static scen_t scens[32];
 static int nscen;
 
 static void add_scen(const char *name, int kind, int ver, int kx, uint16_t suite, int cauth, int bad, int tickets, int resumed, int expect_complete, int in_quick)
@@ -320,8 +320,8 @@ static void run_scenario(int si, sres_t *out)
 }
 
 /* ------------------------------------------------------------------ oracle */
-static sres_t baseline[24];
-static long   nalloc[24];
+static sres_t baseline[32];
+static long   nalloc[32];
 
 static const char *addr_func(void *addr, char *buf, size_t n)
 {
@@ -523,6 +523,8 @@ int main(int argc, char **argv)
     scens[nscen - 1].cfg.expected_name = "localhost"; scens[nscen - 1].cfg.sni_ext = 1;
     add_scen("tls13-rsa-expected-name-and-sni-extension", K_SESSION, V_TLS13, KX_13_RSA, 0, 0, 0, 0, 0, 1, 1);
     scens[nscen - 1].cfg.expected_name = "localhost"; scens[nscen - 1].cfg.sni_ext = 1;
+    /* client authentication with an ECDSA key under TLS 1.2 (CertificateVerify signed through the PKA queue) */
+    add_scen("tls12-ecdhe-ecdsa-clientauth", K_SESSION, V_TLS12, KX_ECDHE_ECDSA, 0, 1, 0, 0, 0, 1, 1);
 
     if (replay)
     {
